@@ -433,7 +433,9 @@ impl Session {
             query_parts.push(TagFilter::from(
                 query
                     .map_names(|mut k| {
-                        k.replace_range(0..0, "user:");
+                        // a leading '~' marks a plaintext tag and must stay in front of the prefix
+                        let at = usize::from(k.starts_with('~'));
+                        k.replace_range(at..at, "user:");
                         Result::<_, ()>::Ok(k)
                     })
                     .unwrap(),
